@@ -4,13 +4,18 @@
    primary data is written for each kind of Data and which kind is read back
    for each JSON kind, collections keep their order and length, errors win
    over data and come back without data.  The value-level round trip of each
-   resource is C01's (Props/C01.v).  NOT PROVED (correspondence + oracle
-   only): the composition through the payload skeleton, the error objects'
-   member-wise round trip and meta equality; they are executed on every
-   generated document and compared with the Go code. *)
+   resource is C01's (Props/C01.v).  [C02_document_roundtrip_*] compose them
+   through the payload skeleton for documents of soft resources without
+   errors: the primary data comes back as the same kind, collections with the
+   same length and order, each resource the same ([same_soft]: type, ID,
+   every attribute value, every relationship's IDs), the included resources
+   all come back (in the marshaled order, a permutation of the original) and
+   meta comes back as the same map.  NOT PROVED (correspondence + oracle
+   only): struct-backed resources, identifier documents and the error
+   objects' member-wise round trip (one worked example below). *)
 From JV Require Import Model.Base Model.GoTime Gen.TypeGo Model.Schema Model.Value
   Model.Json Model.Resource Model.Marshal Model.Unmarshal Model.Document
-  Proofs.C03Facts Proofs.C02Facts.
+  Model.SoftRes Proofs.C03Facts Proofs.C02Facts Proofs.C01Full Proofs.C02Full.
 
 Theorem C02_written_kind_partial : forall e d fields dj,
   marshal_data e d fields = Ok (Some dj) ->
@@ -56,6 +61,40 @@ Theorem C02_errors_read_without_data_partial : forall e s j k,
   unmarshal_document e s j = Ok (mkUDoc UNil (p_errors k) [] (p_meta k)).
 Proof. exact unmarshal_errors_document. Qed.
 Print Assumptions C02_errors_read_without_data_partial.
+
+(* ---- the composed round trip (documents of soft resources, no errors) ---- *)
+Theorem C02_document_roundtrip_resource : forall e sc fields self d incl,
+  d_included d = map RSoft incl -> Forall (rt_ok e sc fields (d_reldata d)) incl ->
+  d_errors d = [] -> forall sr,
+  d_data d = DRes (RSoft sr) -> rt_ok e sc fields (d_reldata d) sr ->
+  exists j u r', marshal_document e d fields self = Ok j /\
+                 unmarshal_document e sc j = Ok u /\
+                 u_data u = URes (RSoft r') /\ same_soft sr r' /\ rest_ok d incl u.
+Proof. exact doc_roundtrip_resource. Qed.
+Print Assumptions C02_document_roundtrip_resource.
+
+Theorem C02_document_roundtrip_collection : forall e sc fields self d incl,
+  d_included d = map RSoft incl -> Forall (rt_ok e sc fields (d_reldata d)) incl ->
+  d_errors d = [] -> forall ct l,
+  d_data d = DCol ct (map RSoft l) -> Forall (rt_ok e sc fields (d_reldata d)) l ->
+  exists j u rs, marshal_document e d fields self = Ok j /\
+                 unmarshal_document e sc j = Ok u /\
+                 u_data u = UCol (map RSoft rs) /\ Forall2 same_soft l rs /\ rest_ok d incl u.
+Proof. exact doc_roundtrip_collection. Qed.
+Print Assumptions C02_document_roundtrip_collection.
+
+Theorem C02_document_roundtrip_nil : forall e sc fields self d incl,
+  d_included d = map RSoft incl -> Forall (rt_ok e sc fields (d_reldata d)) incl ->
+  d_errors d = [] -> d_data d = DNil ->
+  exists j u, marshal_document e d fields self = Ok j /\
+              unmarshal_document e sc j = Ok u /\ u_data u = UNil /\ rest_ok d incl u.
+Proof. exact doc_roundtrip_nil. Qed.
+Print Assumptions C02_document_roundtrip_nil.
+
+(* the hypotheses are satisfiable: the example resource of C01 *)
+Example c02_rt_ok_example : forall e,
+  rt_ok e ex_sch [("t", soft_fields ex_type)] [("t", ["one"; "many"])] ex_res.
+Proof. exact rt_ok_example. Qed.
 
 Example c02_error_roundtrip_example :
   let er := mkErr "1" "" "404" "Not Found" "" [("about", "/x")] [] [("n", JNum "1")] in
